@@ -70,6 +70,7 @@ def register(reg):
 
     reg.contract(
         N + '._maybe_notify', params={}, inline=True,
+        interference={'holds_inv': True, 'no_access_after': True},
         assumes_inv=False, maintains_inv=False,
         requires=BASE_INV,          # the public methods call it with the common height still pending
         ensures=BASE_INV + [
@@ -102,6 +103,9 @@ def register(reg):
     for meth, seen, last in (('on_mempool', 'g_mp_seen', 'g_last_mp'), ('on_block', 'g_bp_seen', 'g_last_bp')):
         reg.contract(N + '.' + meth, params={'touched': Set(HX), 'height': Int},
                      requires=['height >= 0'],
+                     # the two sources run in different tasks: at every await the other source may call in, so
+                     # the class invariant must hold there and no shared state may be touched afterwards
+                     interference={'holds_inv': True, 'no_access_after': True},
                      ghost={'entry': [f'self.{seen} = add(self.{seen}, height)',
                                       'self.g_given = union(self.g_given, touched)',
                                       f'self.{last} = height']},
@@ -114,6 +118,7 @@ def register(reg):
 
     reg.contract(N + '.start', params={'height': Int, 'notify_func': Callable(N + '.notify')},
                  requires=['height >= 0'],
+                 interference={'holds_inv': True, 'no_access_after': True},
                  ghost={'entry': ['self.g_bp_seen = add(self.g_bp_seen, height)', 'self.g_last_bp = height',
                                   # start-up at h stands for both reports at h (statement: "or start-up at h")
                                   'self.g_mp_seen = add(self.g_mp_seen, height)']},
